@@ -2,6 +2,7 @@ package an
 
 import (
 	"bytes"
+	"fmt"
 	"go/ast"
 	"go/constant"
 	"go/printer"
@@ -25,7 +26,15 @@ func FullName(o types.Object) string {
 		return ""
 	}
 	if f, ok := o.(*types.Func); ok {
-		return f.FullName()
+		full := f.FullName()
+		if f.Pkg() != nil && strings.HasPrefix(f.Pkg().Path(), Mod) {
+			// a function that renames a reference function goes by the reference name
+			short := strings.ReplaceAll(full, Mod+"/", "")
+			if c := canonFuncName(f, short); c != short {
+				return strings.Replace(full, short[strings.LastIndex(short, ".")+1:], c[strings.LastIndex(c, ".")+1:], 1)
+			}
+		}
+		return full
 	}
 	if o.Pkg() != nil {
 		return o.Pkg().Path() + "." + o.Name()
@@ -377,7 +386,16 @@ func SameExpr(info *types.Info, a, b ast.Expr) bool {
 // (`x := e` / `var x = e`) in body back to the defining expression, at most
 // three steps; other expressions are returned as they are.
 func ResolveLocal(info *types.Info, body ast.Node, e ast.Expr) ast.Expr {
-	for step := 0; step < 3; step++ {
+	return resolveLocalSteps(info, body, e, 3)
+}
+
+// ResolveLocalOnce is ResolveLocal limited to one step.
+func ResolveLocalOnce(info *types.Info, body ast.Node, e ast.Expr) ast.Expr {
+	return resolveLocalSteps(info, body, e, 1)
+}
+
+func resolveLocalSteps(info *types.Info, body ast.Node, e ast.Expr, steps int) ast.Expr {
+	for step := 0; step < steps; step++ {
 		id, ok := Unparen(e).(*ast.Ident)
 		if !ok {
 			return e
@@ -418,4 +436,105 @@ func ResolveLocal(info *types.Info, body ast.Node, e ast.Expr) ast.Expr {
 		e = defs[0]
 	}
 	return e
+}
+
+// CanonExpr renders e, an expression of function fd, in a vocabulary that does
+// not depend on local naming: the receiver prints as "recv", parameters as
+// p0, p1, … (or as subst says), a local with a single definition prints as its
+// definition, any other local as ‹type›. Fields, functions, constants and package names print as they are.
+func CanonExpr(info *types.Info, fd *ast.FuncDecl, e ast.Expr, subst map[types.Object]string) string {
+	names := map[types.Object]string{}
+	if fd.Recv != nil {
+		for _, fl := range fd.Recv.List {
+			for _, n := range fl.Names {
+				names[info.Defs[n]] = "recv"
+			}
+		}
+	}
+	i := 0
+	for _, fl := range fd.Type.Params.List {
+		if len(fl.Names) == 0 {
+			i++
+		}
+		for _, n := range fl.Names {
+			names[info.Defs[n]] = fmt.Sprintf("p%d", i)
+			i++
+		}
+	}
+	for o, s := range subst {
+		names[o] = s
+	}
+	// ordinal of opaque locals by type
+	ord := map[types.Object]string{}
+	ast.Inspect(fd.Body, func(n ast.Node) bool {
+		if id, ok := n.(*ast.Ident); ok {
+			if o, isVar := info.Defs[id].(*types.Var); isVar && o != nil && !o.IsField() {
+				if _, done := ord[o]; !done {
+					t := types.TypeString(o.Type(), func(p *types.Package) string { return p.Name() })
+					ord[o] = "‹" + t + "›"
+				}
+			}
+		}
+		return true
+	})
+	var pr func(e ast.Expr, depth int) string
+	pr = func(e ast.Expr, depth int) string {
+		switch x := e.(type) {
+		case *ast.ParenExpr:
+			return pr(x.X, depth)
+		case *ast.Ident:
+			o := info.Uses[x]
+			if o == nil {
+				o = info.Defs[x]
+			}
+			if s, ok := names[o]; ok {
+				return s
+			}
+			if v, isVar := o.(*types.Var); isVar && !v.IsField() && v.Parent() != nil && v.Parent() != v.Pkg().Scope() {
+				if depth < 3 {
+					if def := ResolveLocal(info, fd.Body, x); def != ast.Expr(x) {
+						opaque := false
+						switch d := Unparen(def).(type) {
+						case *ast.CompositeLit, *ast.FuncLit:
+							opaque = true
+						case *ast.CallExpr:
+							if id, ok := d.Fun.(*ast.Ident); ok && (id.Name == "make" || id.Name == "new" || id.Name == "append") {
+								opaque = true
+							}
+						}
+						if !opaque {
+							return pr(def, depth+1)
+						}
+					}
+				}
+				if s, ok := ord[o]; ok {
+					return s
+				}
+			}
+			return x.Name
+		case *ast.SelectorExpr:
+			return pr(x.X, depth) + "." + x.Sel.Name
+		case *ast.StarExpr:
+			return "*" + pr(x.X, depth)
+		case *ast.UnaryExpr:
+			return x.Op.String() + pr(x.X, depth)
+		case *ast.BinaryExpr:
+			return pr(x.X, depth) + " " + x.Op.String() + " " + pr(x.Y, depth)
+		case *ast.IndexExpr:
+			return pr(x.X, depth) + "[" + pr(x.Index, depth) + "]"
+		case *ast.TypeAssertExpr:
+			if x.Type == nil {
+				return pr(x.X, depth) + ".(type)"
+			}
+			return pr(x.X, depth) + ".(" + types.ExprString(x.Type) + ")"
+		case *ast.CallExpr:
+			var args []string
+			for _, a := range x.Args {
+				args = append(args, pr(a, depth))
+			}
+			return pr(x.Fun, depth) + "(" + strings.Join(args, ", ") + ")"
+		}
+		return types.ExprString(e)
+	}
+	return pr(e, 0)
 }
